@@ -79,6 +79,11 @@ class Ctx:
         vals = s.model_values(m)
         case = dict(engine="mirsym", harness=s.hname, obligation=name, inputs=vals, extra=extra)
         f = Finding(s.prop, s.hname, site or name, shape, detail="inputs=%s" % json.dumps(vals, default=str)[:400], case=case)
+        hook = getattr(s, "replay_hook", None)
+        only = getattr(s, "replayable_shapes", None)
+        if replay is None and hook is not None and (only is None or shape in only):
+            # generic native replay: the harness registered how to run the last call natively under a model
+            replay = lambda _vals: hook(m)
         if replay is not None:
             try:
                 f.replayed = replay(vals)
